@@ -1,7 +1,7 @@
 """E2 — slot typestate abstract interpreter over the MIR exported by mmdrv (DESIGN.md §2.2)."""
 import collections
 from .zone import Zone, Term, fresh, ZERO
-from .state import (State, MapState, MOVED, UNIT, TRUE, FALSE, I, OPTION, RESULT, CFLOW, NONE, some,
+from .state import (freeze, State, MapState, MOVED, UNIT, TRUE, FALSE, I, OPTION, RESULT, CFLOW, NONE, some,
                     map_terms, terms_of, is_persistent)
 from . import slots
 from .slots import Unproven
@@ -199,6 +199,7 @@ class Interp:
             length = Term('$len.%s' % mid) if inv else 0
         ms = MapState(length, cap, name)
         ms.phantom = phantom
+        ms.borrowed = phantom
         st.zone.touch(length)
         st.zone.touch(cap)
         if inv:
@@ -229,7 +230,11 @@ class Interp:
             tk = to.get('k')
             if tk == 'adt' and (to['path'] in self.container_paths or to.get('local')):
                 oid = st.new_id('o')
-                st.objs[oid] = self.mk_unknown(st, to, tag + ('*',), gs, None, depth + 1)
+                st.objs[oid] = MOVED      # reserve the id before nested allocations
+                inner = self.mk_unknown(st, to, tag + ('*',), gs, None, depth + 1)
+                st.objs[oid] = inner
+                st.keep = st.keep | {oid}
+                self.mark_borrowed(st, inner)
                 return ('ref', ty['mut'], ('O', oid, ()))
             if tk in ('slice', 'array'):
                 if ty_is_mu(to['elem']):
@@ -243,6 +248,13 @@ class Interp:
                 ln = self.const_term(st, to['len'], gs) if tk == 'array' else fresh('u')
                 st.zone.touch(ln)
                 st.objs[oid] = ('oarr' if tk == 'array' else 'oslice', tag, ln)
+                st.keep = st.keep | {oid}
+                return ('ref', ty['mut'], ('O', oid, ()))
+            if tk == 'tuple' or (tk == 'prim' and to['name'] in ('usize', 'bool')):
+                # plain data behind a reference: materialise it so that reads see integers
+                oid = st.new_id('o')
+                st.objs[oid] = MOVED
+                st.objs[oid] = self.mk_unknown(st, to, tag + ('*',), gs, None, depth + 1)
                 return ('ref', ty['mut'], ('O', oid, ()))
             return ('ref', ty['mut'], ('opq', tag))
         if k == 'array':
@@ -281,7 +293,7 @@ class Interp:
                     st.zone.add_le(hi, ms.len)
                 return ('sliceit', mid, lo, hi, path == SLICE_ITERMUT)
             if path in ENUM_VARIANTS:
-                return ('unk', ty, tag)
+                return ('unk', freeze(ty), tag)
             if path == RANGE:
                 a, b = fresh('u'), fresh('u')
                 st.zone.touch(a)
@@ -298,9 +310,22 @@ class Interp:
                     v = ('adt', path, 0, fields)
                     self.assume_struct_inv(st, v)
                     return v
-                return ('unk', ty, tag)
+                return ('unk', freeze(ty), tag)
             return ('opq', tag)
         return ('opq', tag)
+
+    def mark_borrowed(self, st, v, depth=0):
+        """containers stored inside caller-owned memory survive the call"""
+        if not isinstance(v, tuple) or not v or depth > 8:
+            return
+        if v[0] == 'map':
+            st.maps[v[1]].borrowed = True
+        elif v[0] == 'adt':
+            for x in v[3]:
+                self.mark_borrowed(st, x, depth + 1)
+        elif v[0] == 'tuple':
+            for x in v[1]:
+                self.mark_borrowed(st, x, depth + 1)
 
     # struct invariants (assumed when a value of the type comes from outside, required whenever
     # such a value is built or survives): usize field < len of the container behind the &mut field
@@ -433,7 +458,7 @@ class Interp:
         if v[0] == 'unk':
             ty = v[1]
             if ty.get('k') == 'tuple':
-                return ('tuple', tuple(('unk', e, v[2] + (i,)) for i, e in enumerate(ty['elems'])))
+                return ('tuple', tuple(('unk', freeze(e), v[2] + (i,)) for i, e in enumerate(ty['elems'])))
         return v
 
     def _proj_store(self, v, proj, new):
@@ -542,9 +567,17 @@ class Interp:
             raise Unproven('store of %s into a slot' % v[0])
         raise Unproven('store to %r' % (ptr,))
 
+    def trim(self, tag, depth=3):
+        """bound the nesting of provenance tags (they only feed the path log)"""
+        if not isinstance(tag, tuple):
+            return tag
+        if depth == 0:
+            return ('...',)
+        return tuple(self.trim(x, depth - 1) for x in tag)
+
     def tag_of(self, v):
         if v[0] == 'opq':
-            return v[1]
+            return self.trim(v[1])
         if v[0] == 'unk':
             return v[2]
         if v[0] == 'tuple':
@@ -668,6 +701,14 @@ class Interp:
         gs = st.fmeta[fid][1]
         if 'param' in c:
             return I(self.const_term(st, c['param'], gs))
+        if c.get('uneval_local') and c.get('uneval_def') in self.facts.bodies \
+                and self.facts.bodies[c['uneval_def']].kind in ('InlineConst', 'AnonConst'):
+            # an inline const / const item of the crate: evaluate its body
+            res = self.exec_fn(st.fork(), self.facts.bodies[c['uneval_def']], [], dict(gs or {}))
+            vals = [v for kind, s, v in res if kind == 'ret']
+            if len(vals) == 1 and not terms_of(vals[0]):
+                return vals[0]
+            raise Unproven('cannot evaluate local constant %s' % c['uneval_def'])
         if k == 'prim':
             if ty['name'] == 'bool':
                 return TRUE if val.endswith('true') else FALSE
@@ -675,7 +716,7 @@ class Interp:
                 return I(int(c['bits']))
             return ('opq', ('const', val))
         if k == 'fndef':
-            return ('fn', ty['def'], ty)
+            return ('fn', ty['def'], freeze(ty))
         if k == 'tuple' and not ty['elems']:
             return UNIT
         if k == 'adt':
@@ -685,7 +726,7 @@ class Interp:
                 return NONE
             if ty['path'] == 'core::marker::PhantomData':
                 return ('adt', ty['path'], 0, ())
-            return ('unk', ty, ('const', val))
+            return ('unk', freeze(ty), ('const', val))
         if k == 'closure':
             return ('closure', ty['body'], (), tuple(sorted((gs or {}).items(), key=lambda kv: kv[0])))
         if k == 'ref':
@@ -929,6 +970,9 @@ class Interp:
             return [(st, ('oarr', self.tag_of(x), n))]
         if k == 'rawptr':
             ptr = self.eval_place(st, fid, v['place'])
+            if 'FakeForPtrMetadata' in v['kind']:
+                # compiler-generated: only ever fed to PtrMetadata (slice length for a bounds check)
+                return [(st, ('ref', False, ptr))]
             if ptr[0] in ('mu', 'pairs', 'slice', 'pair', 'len'):
                 self.violate('CENSUS', 'unmodelled', 'raw pointer', 'raw pointer to container storage')
             return [(st, ('opq', ('rawptr',)))]
